@@ -129,6 +129,13 @@ func (p *vhPhys) KeyFaultFired() bool {
 	return p.kfFired
 }
 
+// kfFiredNow: has the fault armed by FailKeyOnce been delivered (without disarming)?
+func (p *vhPhys) kfFiredNow() bool {
+	p.mu.Lock()
+	defer p.mu.Unlock()
+	return p.kfFired
+}
+
 func (p *vhPhys) ClearFaults() {
 	p.mu.Lock()
 	p.failAt = map[int]int{}
